@@ -6,7 +6,7 @@ import ast
 import re as _re
 from typing import Dict, List, Optional
 
-from ..core import clone, Unrecognised, Slot, call_name, calls_in, dotted, facts, module_of, parent, qual, site, src, template, walk_local
+from ..core import has_fact, clone, Unrecognised, Slot, call_name, calls_in, dotted, facts, module_of, parent, qual, site, src, template, walk_local
 from ..formulas import LANG, PropError, SPEC_TABLES, truth_table
 from ..memo import check_memo_keys
 
@@ -345,7 +345,35 @@ def rule_d9(ctx):
                   "(<pair> ::= <left> \"=\" <right> | <right> \"~\" <left>) the translation of `<pair>.<left>.<key> = <pair>.<right>.<val>` gains wrong conjuncts", "dominated by the symbol comparison")
 
 
+def rule_d10(ctx):
+    """Universal closure with push-in: a sub-formula that does not mention the new variable may be left OUTSIDE the new quantifier only if the combinator is a
+    disjunction.  `forall x: (A(x) and B)` is vacuously true over a tree without any x, `(forall x: A(x)) and B` is just B."""
+    f = ctx.repo.func(LANG, "univ_close_over_var_push_in", "C08.D10")
+    c = f"{LANG}:univ_close_over_var_push_in"
+    ip = next((n for n in ast.walk(f) if isinstance(n, ast.FunctionDef) and n.name == "independent_predicate"), None)
+    if ip is None:
+        raise Unrecognised("C08.D10", c, "independent_predicate not found")
+    isconj = [a for a in walk_local(f) if isinstance(a, ast.Assign) and src(a.targets[0]) == "is_conj"]
+    if len(isconj) != 1 or src(isconj[0].value) != "isinstance(formula, ConjunctiveFormula)":
+        raise Unrecognised("C08.D10", c, "is_conj not found")
+    rets = [r for r in ast.walk(ip) if isinstance(r, ast.Return)]
+    t = " ".join(src(rets[0].value).split()) if len(rets) == 1 else ""
+    if t == "not qfd_vars.intersection(f.free_variables())":
+        # unconditional: also for conjunctions - unless the caller restricts the use to disjunctions
+        uses = [x for x in ast.walk(f) if isinstance(x, ast.Call) and call_name(x) == "independent_predicate"]
+        restricted = all(has_fact(facts(u), "is_conj", False) for u in uses) if uses else False
+        ctx.check(restricted, "D10-push-in-only-over-disjunction", c, "independent sub-formulas leave the quantifier scope only in a disjunction", site(ip),
+                  "sub-formulas without the new variable are kept outside the new universal quantifier for conjunctions as well: `(<digit> = \"1\" and <var> = \"z\")` is translated to "
+                  "`(forall <var> var: var = \"z\") and (forall <digit> digit: digit = \"1\")` instead of the documented `forall <digit> digit in start: forall <var> var in start: (...)`; on 'a := b' "
+                  "(no <digit>) the documented form is vacuously TRUE, the translation FALSE", "restricted to `not is_conj`")
+    elif t in ("not is_conj and (not qfd_vars.intersection(f.free_variables()))", "not is_conj and not qfd_vars.intersection(f.free_variables())"):
+        ctx.ok("D10-push-in-only-over-disjunction", c, "independent sub-formulas leave the quantifier scope only in a disjunction", site(ip), t)
+    else:
+        raise Unrecognised("C08.D10", c, f"independence test `{t}` not understood")
+
+
 def run(ctx) -> str:
+    ctx.guarded("D10", lambda: rule_d10(ctx))
     ctx.guarded("D8", lambda: rule_d8(ctx))
     ctx.guarded("D9", lambda: rule_d9(ctx))
     ctx.guarded("D7", lambda: rule_d7(ctx))
